@@ -1135,7 +1135,8 @@ class IndexMap:
         ctx.assumptions.append(z3.ForAll([x], z3.Or(
             z3.And(li(x) == -1),
             z3.And(0 <= li(x), li(x) < nn, key(li(x)) == x)), patterns=[li(x)]))
-        ctx.assumptions.append(z3.ForAll([j], z3.Implies(
+        from .core import forall
+        ctx.assumptions.append(forall([j], z3.Implies(
             z3.And(0 <= j, j < nn), z3.And(li(key(j)) >= j, li(key(j)) < nn)), patterns=[key(j)]))
 
     def has(self, x):
